@@ -50,9 +50,10 @@ NodeAt(facts, path, cfg) ==
   IN Go(facts, path)
 
 \* the baseline and its digest cache describe the old disk
+\* (a warm full scan - base.ok = FALSE - brings only the caches)
 BaselineFaithful(old, cfg, base) ==
-  /\ base.ok /\ Scannable(old) /\ KeysDistinct(old, cfg)
-  /\ Shape(base.content) = Observe(old, cfg)
+  /\ Scannable(old) /\ KeysDistinct(old, cfg)
+  /\ base.ok => Shape(base.content) = Observe(old, cfg)
   /\ \A p \in DOMAIN base.cache :
        LET n == NodeAt(old, p, cfg) c == base.cache[p] IN
        n.t = "file" /\ n.d = c.d /\ n.mt = c.mt /\ n.sz = c.sz /\ n.ino = c.ino /\ n.m = c.m
@@ -73,6 +74,7 @@ AccelFails(i, r, acc, cold, pre) ==
     \o Chk(Want, i, "C13_AccelEqualsFull", pre => SameSnapshot(acc, cold))
     \o Chk(Want, i, "C13_DigestCacheEqualsFull", pre => SameDigestCache(acc, cold))
     \o Chk(Want, i, "C13_IgnoreCacheWithinFull", pre => ICacheWithin(acc, cold))
+    \o Chk(Want, i, "C13_IgnoreCacheMatchesCold", pre => ICacheMatches(acc, cold))
     \o Chk(Want, i, "C13_AccelDescribesDisk", pre => C12_SnapshotExact(r.new, r.cfg, acc) /\ C12_CountsMatchContent(r.new, r.cfg, acc))
 
 \* conformance of the transcription: the model's accelerated scan of the recorded inputs = the real one
@@ -91,7 +93,8 @@ ModelAgrees(r, base, acc) ==
 \* returned, cold = the harness's cold core.Scan of the same disk, events = the paths the plugged-in watcher
 \* delivered (and the endpoint finished handling) since the last accelerated or baseline scan.
 \* Verdicts are C13's: whenever its premise holds on the walker's facts, the endpoint's scan equals the cold one.
-NormBase(b) == IF b.ok THEN Norm(b) ELSE [ok |-> FALSE, cache |-> CacheFn(b.cache), icache |-> <<>>]
+NormBase(b) == IF b.ok THEN Norm(b)
+               ELSE [ok |-> FALSE, cache |-> CacheFn(b.cache), icache |-> IF Has(b, "icache") THEN ICacheFn(b.icache) ELSE <<>>]
 CacheHonest(r, cache) ==
   \A p \in DOMAIN cache : \E j \in DOMAIN r.hist :
      LET n == NodeAt(r.hist[j], p, r.cfg) c == cache[p] IN
@@ -138,10 +141,10 @@ StepScan(r) == /\ fails' = Cap(fails \o ScanFails(l, r))
                /\ wr' = [wr EXCEPT !.retries = @ + B(Has(r, "aborted")), !.abort_drift = @ + B(~AbortAsModelled(r))]
                /\ UNCHANGED <<unjudged, weak, weakdiff>>
 StepAccel(r) ==
-  LET base == Norm(r.base) acc == Norm(r.accel) cold == Norm(r.cold)
+  LET base == NormBase(r.base) acc == Norm(r.accel) cold == Norm(r.cold)
       common == Common(r, base)
       changed == Changed(<<>>, r.old, r.new)
-      pre == common /\ changed \subseteq Recheck(r)            \* the statement's precondition
+      pre == common /\ (base.ok => changed \subseteq Recheck(r))   \* the statement's precondition (a warm full scan re-checks everything)
       stats == "Stats" \in Want
       w == stats /\ common /\ ~pre /\ ParentOrSelfReported(changed, Recheck(r))
   IN /\ fails' = Cap(fails \o AccelFails(l, r, acc, cold, pre))
@@ -149,7 +152,7 @@ StepAccel(r) ==
      /\ unjudged' = unjudged + (IF pre THEN 0 ELSE 1)
      /\ weak' = weak + (IF w THEN 1 ELSE 0)
      /\ weakdiff' = weakdiff + (IF w /\ ~SameSnapshot(acc, cold) THEN 1 ELSE 0)
-     /\ drift' = drift + (IF stats /\ r.base.ok /\ ~ModelAgrees(r, base, acc) THEN 1 ELSE 0)
+     /\ drift' = drift + (IF stats /\ ~ModelAgrees(r, base, acc) THEN 1 ELSE 0)
      /\ wr' = [wr EXCEPT !.retries = @ + B(Has(r, "aborted")), !.abort_drift = @ + B(~AbortAsModelled(r))]
 StepWScan(r) ==
   LET base == NormBase(r.base) acc == Norm(r.accel) cold == Norm(r.cold)
